@@ -51,6 +51,10 @@ def all_programs(nodes):
         if m == 1: out += atoms
         if m >= 1:
             for l in lists(m - 1): out.append(('B', l))
+            # ('I', then-items, else-items): an if-else whose two branches are sibling scopes
+            for k in range(0, m):
+                for l1 in lists(k):
+                    for l2 in lists(m - 1 - k): out.append(('I', l1, l2))
         return tuple(out)
 
     @lru_cache(None)
@@ -64,7 +68,7 @@ def all_programs(nodes):
     progs = []
     for m in range(1, nodes + 1): progs += list(lists(m))
     # only programs with at least one declaration are interesting
-    progs = [p for p in progs if ("'D'" in repr(p) or "'X'" in repr(p)) and repr(p).count("'X'") <= 1]
+    progs = [p for p in progs if ("'D'" in repr(p) or "'X'" in repr(p)) and repr(p).count("'X'") <= 1 and repr(p).count("'I'") <= 1 and not ("'I'" in repr(p) and "'X'" in repr(p))]
     _ENUM[nodes] = progs
     return progs
 
@@ -95,6 +99,7 @@ def oracle_scope(prog_items):
         for it in items:
             cnt[0] += 1; i = cnt[0]
             if it[0] == 'B': walk(it[1], scopes); continue
+            if it[0] == 'I': walk(it[1], scopes); walk(it[2], scopes); continue
             k, n = it[0], it[1]
             def visible(n):
                 for sc in reversed(scopes):
@@ -120,6 +125,9 @@ def build_ast(ir, prog_items):
         for it in items:
             cnt[0] += 1; i = cnt[0]
             if it[0] == 'B': out.append(ir.E(A, 'Block', meta=meta(i), stmts=VecV(build(it[1])))); continue
+            if it[0] == 'I':
+                then_ = ir.E(A, 'Block', meta=meta(i), stmts=VecV(build(it[1]))); else_ = ir.E(A, 'Block', meta=meta(i), stmts=VecV(build(it[2])))
+                out.append(ir.E(A, 'IfThenElse', meta=meta(i), cond=Enum('ast::Expression', 'Number', [meta(i), BigV(1)]), if_case=BoxV(then_), else_case=some(BoxV(else_)))); continue
             k, n = it[0], it[1]
             if k == 'X': out.append(ir.E(A, 'Declaration', meta=meta(i), xtype=Enum('ast::VariableType', 'Var'), name=StrV.of(n), dimensions=VecV([var(100 + i, it[2])]), is_constant=True))
             elif k == 'D': out.append(ir.E(A, 'Declaration', meta=meta(i), xtype=Enum('ast::VariableType', 'Var'), name=StrV.of(n), dimensions=VecV([]), is_constant=True))
@@ -136,6 +144,10 @@ def read_back(ir, body):
         st = deref(st); i = ir.get(st, 'meta').f[0]
         if st.var == 'Block':
             for s in ir.get(st, 'stmts').items: walk(s)
+        elif st.var == 'IfThenElse':
+            walk(deref(ir.get(st, 'if_case')).f[0] if isinstance(deref(ir.get(st, 'if_case')), BoxV) else ir.get(st, 'if_case'))
+            ec = ir.get(st, 'else_case')
+            if ec.var == 'Some': walk(deref(ec.f[0]).f[0] if isinstance(deref(ec.f[0]), BoxV) else ec.f[0])
         elif st.var == 'Declaration':
             out[i] = ir.get(st, 'name').concrete()
             for d in ir.get(st, 'dimensions').items: out[ir.get(deref(d), 'meta').f[0]] = ir.get(deref(d), 'name').concrete()
@@ -318,7 +330,9 @@ def source_of(p, const_dims=False):
     def emit(items, ind):
         for it in items:
             cnt[0] += 1
-            if it[0] == 'B':
+            if it[0] == 'I':
+                lines.append('    ' * ind + 'if (a == %d) {' % cnt[0]); emit(it[1], ind + 1); lines.append('    ' * ind + '} else {'); emit(it[2], ind + 1); lines.append('    ' * ind + '}')
+            elif it[0] == 'B':
                 lines.append('    ' * ind + 'if (a == %d) {' % cnt[0]); emit(it[1], ind + 1); lines.append('    ' * ind + '}')
             elif it[0] == 'D': lines.append('    ' * ind + 'var %s = %d;' % (it[1], cnt[0]))
             elif it[0] == 'X': lines.append('    ' * ind + 'var %s[%s];' % (it[1], '2' if const_dims else it[2]))
@@ -419,7 +433,7 @@ def main(tier, replay=None):
     if rep.nonrepro and not rep.violations:
         rep.inconclusive.append('%d counterexamples did not reproduce natively, e.g. %s' % (len(rep.nonrepro), json.dumps(rep.nonrepro[0], default=str)[:400]))
     pr = prog()
-    rep.bounds = {'scope': 'every program with <= %d items (declaration / read / assignment of two names, at most one array declaration `var n[m]` whose size reads a name, blocks, any nesting; %d programs), one parameter' % (bounds(tier), len(all_programs(bounds(tier)))),
+    rep.bounds = {'scope': 'every program with <= %d items (declaration / read / assignment of two names, at most one array declaration `var n[m]` whose size reads a name, blocks, at most one if-else whose branches are sibling scopes, any nesting; %d programs), one parameter' % (bounds(tier), len(all_programs(bounds(tier)))),
                   'keys': 'identifier strings of 1..3 symbolic characters [A-Za-z0-9_], optional 1-digit suffix', 'split': 'names of 1..3 chars, version of 0..2 digits'}
     rep.stubs = ['unique_vars::build_report (arguments captured)']
     rep.assumptions = ['HashMap<String,_> modelled as association lists with symbolic string equality', 'source hash ' + pr.hashes['structure']]
